@@ -25,13 +25,36 @@ EXTERNALS = ["_actions", "_first_applicable_unreachable", "_resource_covers"]
 RANGES = {"analyze_policy": [("for_run", "first_pass")]}
 
 
+def _helpers(src: str) -> dict:
+    """the helpers `_resource_covers` (existing translator, early-return `items()` loop) and `_first_applicable_unreachable` (`_actions` and
+    `_resource_covers` as parameters), each a stage of its own: a failure is recorded (ONE line) and leaves the rest standing"""
+    import pytolean
+    import pytolean_lint
+    out: dict = {}
+    try:
+        text = pytolean.translate(src, ["_resource_covers"], joins=True, oracle=True)["_resource_covers"]
+        out["_resource_covers"] = {"lean": text.replace("def resource_covers ", "def lint_resource_covers ", 1)}
+    except Exception as e:  # noqa: BLE001
+        out["_resource_covers"] = {"failed": " ".join(f"{type(e).__name__}: {e}".split())[:300]}
+    try:
+        cfg = pytolean_lint.Cfg(["_actions", "_resource_covers"], {}, {"_first_applicable_unreachable": "lint_first_applicable_unreachable"})
+        out["_first_applicable_unreachable"] = {"lean": pytolean_lint.translate(src, ["_first_applicable_unreachable"], cfg)["_first_applicable_unreachable"]}
+    except Exception as e:  # noqa: BLE001
+        out["_first_applicable_unreachable"] = {"failed": " ".join(f"{type(e).__name__}: {e}".split())[:300]}
+    return out
+
+
 def extract(repo: str) -> dict:
     import pytolean_lint
     src = open(os.path.join(repo, FILE), encoding="utf-8").read()
-    return dict(pytolean_lint.translate(src, NAMES, pytolean_lint.Cfg(EXTERNALS, RANGES, LEAN)))
+    f = dict(pytolean_lint.translate(src, NAMES, pytolean_lint.Cfg(EXTERNALS, RANGES, LEAN)))
+    f["helpers"] = _helpers(src)
+    return f
 
 
 def render(f: dict) -> str:
     body = "\n".join(f[name] for name in NAMES)
+    for name, h in (f.get("helpers") or {}).items():
+        body += "\n" + (h["lean"] if "lean" in h else f"-- {name}: not translated ({h.get('failed')})\n")
     return ("/-! C17: `analyze_policy` (first pass and helpers as parameters) and `analyze_policyset` (dsl/lint.py) as the source has them now "
             "(harness/pytolean_lint.py) -/\nnamespace Src\n\n" + body + "\nend Src\n")
